@@ -92,3 +92,89 @@ def _fromtimestamp(ex, node, st):
 Exec.global_calls["datetime.datetime.fromtimestamp"] = _fromtimestamp
 Exec.global_values["datetime.timezone.utc"] = lambda ex, st: Val(TU("Tz"), z3.Const("tz_utc", sort_of(TU("Tz"))))
 Exec.method_handlers[("Dt", "astimezone")] = lambda ex, v, node, st, rn: Val(Dt, dt_utc(v.t))
+
+# ---- database level: storage iteration, query construction and evaluation
+from .db_model import *  # noqa
+
+
+def _iter_storage(ex, v, s, st):
+    items = v.t["items"]
+    return l_len(items.t), items, (lambda j: Val(Item, l_at(items.t, j))), {}
+
+
+Exec.iter_handlers["Obj_Storage"] = _iter_storage
+Exec.listof_handlers["Obj_Storage"] = lambda ex, v, node, st: v.t["items"]
+
+q_and = z3.Function("q_and", sort_of(Q), sort_of(Q), sort_of(Q))  # a & b
+q_meas_eq = z3.Function("q_meas_eq", sort_of(TStr), sort_of(Q))  # MeasurementQuery() == m
+
+
+def db_query_axioms():
+    a, b = z3.Const("ax_a", sort_of(Q)), z3.Const("ax_b", sort_of(Q))
+    m = z3.Const("ax_m", sort_of(TStr))
+    p = z3.Const("ax_p2", sort_of(Pt))
+    x = q_and(a, b)
+    y = q_meas_eq(m)
+    return [
+        forall([a, b], z3.And(q_kind(x) == 1, q_op(x) == OPS["and_"], q_q1(x) == a, q_q2(x) == b, q_has2(x),
+                              wfq(x) == z3.And(wfq(a), wfq(b))), patterns=[q_and(a, b)]),
+        forall([m], z3.And(q_kind(y) == 0, wfq(y), q_hash_truthy(y), q_attr(y) == A_MEAS, q_op(y) == OPS["eq"]), patterns=[q_meas_eq(m)]),
+        forall([m, p], sem(y, p) == (meas(p) == m), patterns=[sem(y, p)]),
+    ]
+
+
+S.THEORIES["dbqueries"] = db_query_axioms()
+
+BaseMQ = TU("MeasurementQueryBase")
+Exec.global_calls["tinyflux.queries.MeasurementQuery"] = lambda ex, node, st: Val(BaseMQ, z3.Const("MeasurementQuery()", sort_of(BaseMQ)))
+
+
+def _mq_eq(ex, a, b, node, st):
+    if a.ty != BaseMQ:
+        a, b = b, a
+    m = ex.coerce(b, TStr, node, "MeasurementQuery comparison value")
+    return q_meas_eq(m.t)
+
+
+def _mq_compare(ex, a, b, node, st):
+    return _mq_eq(ex, a, b, node, st)
+
+
+# `MeasurementQuery() == m` evaluates to a query object, not a bool
+_orig_compare = Exec.compare
+
+
+def _compare(self, op, a, b, node, st):
+    if isinstance(op, _ast.Eq) and (a.ty == BaseMQ or b.ty == BaseMQ):
+        raise _QueryValue(Val(Q, _mq_eq(self, a, b, node, st)))
+    return _orig_compare(self, op, a, b, node, st)
+
+
+class _QueryValue(Exception):
+    def __init__(self, val):
+        self.val = val
+
+
+_orig_e_compare = Exec.e_Compare
+
+
+def _e_compare(self, node, st):
+    try:
+        return _orig_e_compare(self, node, st)
+    except _QueryValue as q:
+        return q.val
+
+
+Exec.compare = _compare
+Exec.e_Compare = _e_compare
+Exec.binop_handlers[("BitAnd", "Q", "Q")] = lambda ex, a, b, node, st: Val(Q, q_and(a.t, b.t))
+
+
+def _q_call(ex, q, node, st):
+    (a,) = [ex.eval(x, st) for x in node.args]
+    if a.ty != Pt:
+        raise Unsupported("query called on %s" % a.ty, node)
+    return Val(TBool, sem(q.t, a.t))
+
+
+Exec.call_handlers["Q"] = _q_call
